@@ -54,7 +54,8 @@ ASSUMPTIONS = [
     "within 4.6e-4 rad of +x or -x at the geometry the force was evaluated at",
 ]
 REQUIRED_MONITORS = ["fd_dirs_compared", "evaluator_pairs_compared", "padding_rows_checked", "excited_dirs_compared",
-                     "axis_aligned_dirs_compared", "sp2_dirs_compared", "dispersion_dirs_compared"]
+                     "axis_aligned_dirs_compared", "sp2_dirs_compared", "dispersion_dirs_compared", "exact_x_axis_dirs_compared",
+                     "finite_checks", "cg_batches_with_uneven_iterations", "batch_vs_alone_rows_compared"]
 CASE_TIMEOUT = 600.0
 BUDGET_S = {"quick": float(os.environ.get("VERIF_BUDGET_QUICK", 200)), "thorough": float(os.environ.get("VERIF_BUDGET_THOROUGH", 1700))}
 
@@ -219,6 +220,27 @@ def gen_cases(tier, seed):
                                  layout="single", conv=[2], sigma=0.05))
         lib.append(_lib_case(g, tier, method=method, name=name, orient=_orient_generic(), layout="single", conv=[2],
                              sigma=0.05))
+    # molecules whose library geometry lies EXACTLY on the x axis, undistorted, in both senses (for i < j in the
+    # species-sorted order R_j - R_i is exactly along -x for some pairs and +x for others; the flip exchanges them),
+    # plus distorted molecules with one chosen pair exactly on -x / +x in both atom orders
+    for k, (name, method) in enumerate((("CO2", "AM1"), ("N2", "PM3"), ("HCN", "MNDO"), ("C2H2", "PM6_SP"), ("CO", "AM1"),
+                                        ("BeH2", "PM3"), ("N2O", "MNDO"), ("HF", "PM3"))):
+        if quick and k >= 5:
+            break
+        for flip in (False, True):
+            c = _lib_case(g, tier, method=method, name=name, orient={"kind": "asis", "flip": flip}, layout="single",
+                          conv=[2], sigma=0.0, sp2=False)
+            c["sp2"] = None
+            lib.append(c)
+    for name, method, pr in (("CO2", "PM3", [0, 1]), ("CO2", "PM3", [1, 0]), ("CH2O", "AM1", [0, 1]), ("CH2O", "AM1", [1, 0]),
+                             ("HCN", "AM1", [0, 2]), ("HCN", "AM1", [2, 0])):
+        for axis in ("-x", "+x"):
+            if quick and axis == "+x" and name != "CO2":
+                continue
+            c = _lib_case(g, tier, method=method, name=name, layout="single", conv=[2], sigma=0.05, sp2=False,
+                          orient={"kind": "align", "axis": axis, "cone": 0.0, "seed": int(g.integers(0, 2**31)), "pair": pr})
+            c["sp2"] = None
+            lib.append(c)
     for name in ("NH4+", "OH-", "CH3.", "O2t", "H2O+.", "CN-"):
         for method in ("AM1", "PM3"):
             lib.append(_lib_case(g, tier, method=method, name=name, orient=_orient_generic(), layout="single"))
@@ -233,6 +255,27 @@ def gen_cases(tier, seed):
         disp += [[("CH4", "CH4", 3.2)], [("CH4", "CH4", 5.0)], [("H2O", "H2O", 4.0)], [("C2H4", "C2H4", 3.8)],
                  [("NH3", "H2O", 3.5)], [("C2H6", None, None)], [("CH3OH", "CH4", 4.0), ("H2O", "H2O", 3.0)],
                  [("C6H6", "CH4", 4.5)]]
+    # distance scan of dimers THROUGH the damping switch S_R (R0_i + R0_j) of one pinned pair (the switch is 0.003 A
+    # wide; the difference quotient is not smooth there and is skipped by its own guards, the pairwise comparison of the
+    # evaluators is the deciding clause inside the window, the quotient in its tails)
+    sw = {"CC": ("CH4", "CH4", 1.1058892 * 2.904, 0, 0), "CH": ("CH4", "H2", 1.1058892 * 2.453, 0, 0),
+          "HH": ("H2", "H2", 1.1058892 * 2.002, 0, 0)}
+    offs = (-0.012, 0.003, 0.02) if quick else tuple(np.round(np.arange(-0.06, 0.0601, 0.01), 3)) + (-0.005, -0.002, 0.002, 0.005)
+    for key, (a, b, r0, ia, ib) in sw.items():
+        for off in offs:
+            lib.insert(0, {"kind": "dimer", "dimers": [(a, b, round(float(r0 + off), 5), ia, ib)], "method": "AM1", "conv": [2],
+                           "sp2": None, "uhf": False, "modes": list(ALL_MODES), "orient": _orient_generic(), "dispersion": True,
+                           "layout": "single", "seed": int(g.integers(0, 2**31)), "switch": key, "offset": float(off)})
+    # homogeneous excited-state batches with deliberately UNEVEN distortion (z-vector CG iteration counts differ)
+    cgb = [("CH2O", "AM1", "cis", 1), ("C2H4", "PM3", "rpa", 1), ("H2O", "MNDO", "cis", 2)]
+    if not quick:
+        cgb += [("CH2O", "PM3", "rpa", 2), ("NH3", "AM1", "cis", 1), ("HCN", "AM1", "cis", 1), ("CH3OH", "AM1", "cis", 1),
+                ("C2H4", "MNDO", "cis", 2), ("HNO", "PM3", "rpa", 1), ("CH2O", "PM6_SP", "cis", 1), ("H2S", "PM3", "cis", 1)]
+    for name, method, xm, act in cgb:
+        lib.insert(0, {"kind": "cgbatch", "mol": name, "method": method, "conv": [2], "sp2": None, "uhf": False,
+                       "modes": ["analytical"], "orient": _orient_generic(), "layout": "homog",
+                       "sigmas": [0.0, 0.03, 0.1, 0.15] if not quick or name == "CH2O" else [0.0, 0.1, 0.15],
+                       "excited": {"method": xm, "n_states": act + 2, "active": act}, "seed": int(g.integers(0, 2**31))})
     for dm in disp:
         for conv in ([[2]] if quick else [[2], [1]]):
             lib.insert(0, {"kind": "dimer", "dimers": dm, "method": "AM1", "conv": conv, "sp2": None, "uhf": False,
@@ -299,6 +342,8 @@ def _settings(case, mode, sp2=True):
 
 def _orient(X, orient, g, Z):
     X = np.asarray(X, float)
+    if orient["kind"] == "asis":
+        return X * np.array([-1.0, -1.0, 1.0]) if orient.get("flip") else X.copy()
     if orient["kind"] == "generic":
         return X @ gen.generic_rotation(X, g).T
     go = np.random.default_rng(orient["seed"])
@@ -308,12 +353,23 @@ def _orient(X, orient, g, Z):
     i, j = pick[int(go.integers(0, len(pick)))]
     if go.integers(0, 2):
         i, j = j, i
+    if orient.get("pair") is not None:
+        i, j = orient["pair"]
     R = gen.align_pair(X, i, j, orient["axis"], cone=orient["cone"], g=go)
-    return X @ R.T
+    Y = X @ R.T
+    if orient["cone"] == 0.0:
+        # EXACT alignment: R_j - R_i has its two transverse components equal to 0.0 bitwise (the rotation alone leaves
+        # 1e-16), so that the unit pair vector is exactly +-e_axis (1 + v_x == 0.0 on -x); atom j moves by <= 1e-15 A
+        a = "xyz".index(orient["axis"][1])
+        for c in range(3):
+            if c != a:
+                Y[j, c] = Y[i, c]
+    return Y
 
 
-def make_dimer(name_a, name_b, dist, g, sigma=0.03):
-    """two library molecules, each distorted and randomly oriented, centres `dist` A apart; atoms sorted by Z."""
+def make_dimer(name_a, name_b, dist, g, sigma=0.03, pin=None):
+    """two library molecules, each distorted and randomly oriented, centres `dist` A apart (or, with pin=(ia, ib), atom
+    ia of the first and atom ib of the second exactly `dist` A apart); atoms sorted by Z."""
     Za, Xa, _, _ = gen.molecule(name_a)
     Zb, Xb, _, _ = gen.molecule(name_b)
     for _ in range(100):
@@ -323,7 +379,10 @@ def make_dimer(name_a, name_b, dist, g, sigma=0.03):
         u /= np.linalg.norm(u)
         A = A - A.mean(axis=0)
         B = B - B.mean(axis=0) + dist * u
-        if np.linalg.norm(A[:, None, :] - B[None, :, :], axis=-1).min() >= 1.6:
+        if pin is not None:
+            B = B - B[pin[1]] + A[pin[0]] + dist * u
+        dmin = np.linalg.norm(A[:, None, :] - B[None, :, :], axis=-1).min()
+        if dmin >= (1.6 if pin is None else min(1.6, dist - 1e-9)):
             break
     Z = list(Za) + list(Zb)
     X = np.vstack([A, B])
@@ -338,13 +397,14 @@ def build_rows(case):
     g = np.random.default_rng(case["seed"])
     rows = []
     if case["kind"] == "dimer":
-        for a, b, d in case["dimers"]:
+        for dm in case["dimers"]:
+            a, b, d = dm[:3]
             if b is None:
                 Z, X0, _, _ = gen.molecule(a)
                 X = gen.distort(X0, g, sigma=0.03)
                 X = X @ gen.generic_rotation(X, g).T
             else:
-                Z, X = make_dimer(a, b, d, g)
+                Z, X = make_dimer(a, b, d, g, pin=(dm[3], dm[4]) if len(dm) > 3 else None)
             rows.append((Z, X + g.uniform(-3, 3, 3), 0, 1))
         return rows, list(range(len(rows)))[:2]
     if case["kind"] == "pair":
@@ -468,10 +528,10 @@ def fd_energy_derivatives(Z, X, q, m, sett, dirs, excited=None):
         if good and excited and ce is not None:
             a = excited["active"] - 1
             for r in range(sl.start, sl.stop):
-                if abs(ce[r][a] - ce[0][a]) > 0.05:
+                if not (abs(ce[r][a] - ce[0][a]) <= 0.05):
                     good = False
                 for nb in (a - 1, a + 1):
-                    if 0 <= nb < ce.shape[1] and abs(ce[r][nb] - ce[r][a]) < 0.1:
+                    if 0 <= nb < ce.shape[1] and not (abs(ce[r][nb] - ce[r][a]) >= 0.1):
                         good = False
         ok.append(good)
     return {"E0": float(E[0]), "nc0": bool(nc[0]), "D": D, "est": est, "ok": ok, "curv": curv, "evals": len(geoms),
@@ -591,8 +651,168 @@ def classify(case, mode_names, Z, X, counterfactual=None):
 
 
 # ---------------------------------------------------------------------------------------
+class _CGProbe:
+    """wrapper around rcis_batch.conjugate_gradient_batch: true residual of the returned solution per molecule and the
+    number of iterations each molecule needs when solved on its own (same routine, batch of one)."""
+
+    def __init__(self):
+        self.records = []
+
+    def __enter__(self):
+        import torch
+        from seqm.seqm_functions import rcis_batch
+        self.mod = rcis_batch
+        self.orig = orig = rcis_batch.conjugate_gradient_batch
+        probe = self
+
+        def wrapped(A, b, M_diag=None, max_iter=100, tol=1e-6):
+            x = orig(A, b, M_diag, max_iter=max_iter, tol=tol)
+            with torch.no_grad():
+                dims = tuple(range(1, b.dim()))
+                res = torch.linalg.vector_norm(b - A(x), ord=float("inf"), dim=dims)
+                iters = []
+                if b.shape[0] > 1:
+                    for k in range(b.shape[0]):
+                        cnt = [0]
+
+                        def Ak(p1, k=k, cnt=cnt):
+                            cnt[0] += 1
+                            full = torch.zeros_like(b)
+                            full[k:k + 1] = p1
+                            return A(full)[k:k + 1]
+
+                        try:
+                            orig(Ak, b[k:k + 1], None if M_diag is None else M_diag[k:k + 1], max_iter=max_iter, tol=tol)
+                        except RuntimeError:
+                            cnt[0] = -1
+                        iters.append(cnt[0])
+            probe.records.append({"batch": int(b.shape[0]), "tol": float(tol), "residual": [float(v) for v in res],
+                                  "solo_iterations": iters})
+            return x
+
+        rcis_batch.conjugate_gradient_batch = wrapped
+        return self
+
+    def __exit__(self, *a):
+        self.mod.conjugate_gradient_batch = self.orig
+
+
+TOL_BATCH_ALONE_F = 1e-7      # eV/A; clean tree: 7e-11 (z-vector tolerance 1e-9-ish, same SCF point)
+
+
+def run_cgbatch(case):
+    from vlib import run
+    g = np.random.default_rng(case["seed"])
+    Z, X0, q, m = gen.molecule(case["mol"])
+    rows = []
+    for sg in case["sigmas"]:
+        X = gen.distort(X0, g, sigma=sg) if sg > 0 else np.asarray(X0, float).copy()
+        rows.append((Z, X @ gen.generic_rotation(X, g).T + g.uniform(-3, 3, 3), q, m))
+    exc = case["excited"]
+    a = exc["active"] - 1
+    sett = _settings(case, "analytical")
+    mon = {"force_calls": 0, "cg_calls": 0, "cg_batches_with_uneven_iterations": 0, "cg_molecules_checked": 0,
+           "batch_vs_alone_rows_compared": 0, "fd_dirs_compared": 0, "excited_dirs_compared": 0, "fd_energy_evals": 0,
+           "fd_dirs_not_smooth": 0, "fd_dirs_unconverged": 0, "finite_checks": 0}
+    margins, viol, obs = {}, [], {}
+
+    def upd(name, val, tol):
+        r = float(val) / tol
+        if not (r <= margins.get(name, -1.0)):
+            margins[name] = r
+        return not (r <= 1.0)
+
+    try:
+        with _CGProbe() as probe:
+            ob = run.single_point([Z] * len(rows), np.stack([r[1] for r in rows]), sett, charges=q, mult=m)
+            nb = len(probe.records)
+            alone = [run.single_point(Z, r[1], sett, charges=q, mult=m) for r in rows]
+    except Exception as e:
+        if any(k in str(e) for k in ("Maximum number of roots", "A-B matrix has negative eigenvalues")):
+            return {"ineligible": "excited-state request rejected by the package", "monitors": mon}
+        raise
+    mon["force_calls"] += 1 + len(rows)
+    for k, rec in enumerate(probe.records):
+        mon["cg_calls"] += 1
+        for v in rec["residual"]:
+            mon["cg_molecules_checked"] += 1
+            if upd("zvector_residual", v, 10.0 * rec["tol"]):
+                viol.append({"clause": "zvector-residual", "mech": None,
+                             "detail": {"cg_call": k, "batch": rec["batch"], "tol": rec["tol"], "residuals": rec["residual"],
+                                        "solo_iterations": rec["solo_iterations"], "species": Z,
+                                        "coords": [r[1].tolist() for r in rows]}})
+                break
+        it = [i for i in rec["solo_iterations"] if i >= 0]
+        if len(it) > 1 and max(it) != min(it):
+            mon["cg_batches_with_uneven_iterations"] += 1
+            obs["cg_solo_iterations"] = rec["solo_iterations"]
+    ncb = np.asarray(ob["notconverged"], bool).reshape(-1)
+    n = len(Z)
+    ce = ob["cis_energies"]
+    for r, (_, X, _, _) in enumerate(rows):
+        o1 = alone[r]
+        mon["finite_checks"] += 1
+        if not ncb[r] and not (np.all(np.isfinite(ob["force"][r, :n])) and np.isfinite(ob["Etot"][r])):
+            viol.append({"clause": "force-not-finite-with-clean-flag/analytical", "mech": None,
+                         "detail": {"row": r, "species": Z, "coords": X.tolist()}})
+            continue
+        if ncb[r] or bool(np.asarray(o1["notconverged"]).any()):
+            continue
+        sep = min([abs(ce[r][k] - ce[r][a]) for k in (a - 1, a + 1) if 0 <= k < ce.shape[1]] + [9.0])
+        if not (sep >= 0.2) or not (abs(float(o1["Etot"][0]) - float(ob["Etot"][r])) <= E0_GUARD):
+            obs.setdefault("rows_skipped", []).append(r)
+            continue
+        d = np.abs(ob["force"][r, :n] - o1["force"][0, :n]).max()
+        mon["batch_vs_alone_rows_compared"] += 1
+        if upd("batch_vs_alone_force", d, TOL_BATCH_ALONE_F):
+            viol.append({"clause": "excited-batch-vs-alone-force/analytical", "mech": None,
+                         "detail": {"row": r, "max_abs_diff": float(d), "tol": TOL_BATCH_ALONE_F, "sigma": case["sigmas"][r],
+                                    "species": Z, "coords": X.tolist(), "sigmas_of_batch": case["sigmas"]}})
+    # difference quotient of the returned Etot for the most distorted eligible row
+    r = len(rows) - 1
+    X = rows[r][1]
+    sep = min([abs(ce[r][k] - ce[r][a]) for k in (a - 1, a + 1) if 0 <= k < ce.shape[1]] + [9.0])
+    nontrivial = mon["batch_vs_alone_rows_compared"] > 0
+    if not ncb[r] and sep >= 0.2:
+        gd = np.random.default_rng(case["seed"] + 1000 + r)
+        dirs, labels = _directions(case, Z, X, gd)
+        if len(dirs) > 8:
+            dirs, labels = dirs[:8], labels[:8]
+        fd = fd_energy_derivatives(Z, X, q, m, _settings(case, "analytical", sp2=False), dirs, excited=exc)
+        mon["fd_energy_evals"] += fd["evals"]
+        if not fd["nc0"] and abs(float(ob["Etot"][r]) - fd["E0"]) <= E0_GUARD:
+            F = ob["force"][r, :n]
+            allow = inner_step_allowance(case["method"], Z)
+            for k, dvec in enumerate(dirs):
+                if not fd["ok"][k]:
+                    mon["fd_dirs_unconverged"] += 1
+                    continue
+                if not (fd["est"][k] <= EST_ABS + EST_REL * abs(fd["D"][k])) or not (fd["curv"][k] <= 1.0):
+                    mon["fd_dirs_not_smooth"] += 1
+                    continue
+                fdotd = float((F * dvec).sum())
+                tol = TOL_ABS + TOL_REL * abs(fdotd) + allow
+                mon["fd_dirs_compared"] += 1
+                mon["excited_dirs_compared"] += 1
+                if upd("fd_excited_batch/analytical", abs(fdotd + fd["D"][k]), tol):
+                    viol.append({"clause": "force-vs-fd/analytical", "mech": None,
+                                 "detail": {"direction": labels[k], "F_dot_d": fdotd, "minus_dE_ds": -float(fd["D"][k]),
+                                            "abs_err": abs(fdotd + fd["D"][k]), "tol": tol, "row": r, "species": Z,
+                                            "coords": X.tolist(), "layout": "uneven homogeneous excited batch"}})
+                    break
+    obs.update({"Etot": [float(x) for x in ob["Etot"]], "cis": [float(x) for x in ce[:, a]], "worst": margins})
+    res = {"nontrivial": nontrivial, "violations": viol, "margins": margins, "monitors": mon, "obs": obs,
+           "cells": ["cgbatch/%s/%s-S%d/%s/sig%s" % (case["method"], exc["method"], exc["active"], case["mol"],
+                                                     ",".join("%g" % x for x in case["sigmas"]))]}
+    if not nontrivial and not viol:
+        res["ineligible"] = "no row of the uneven batch was eligible (state separation / convergence)"
+    return res
+
+
 def run_case(case):
     from vlib import run
+    if case["kind"] == "cgbatch":
+        return run_cgbatch(case)
     rows, check = build_rows(case)
     S, C, Q, M = _batch_arrays(case, rows)
     modes = list(case["modes"])
@@ -651,8 +871,10 @@ def run_case(case):
     spin = "uhf-m%d" % rows[check[0]][3] if case.get("uhf") else ("rhf-ion" if rows[check[0]][2] != 0 else "rhf")
     state = "S0" if not exc else "%s-S%d" % (exc["method"], exc["active"])
     conv_l = "conv" + "-".join(str(c) for c in case["conv"])
-    orient_l = case["orient"]["kind"] if case["orient"]["kind"] == "generic" else \
-        "align%s/cone%g" % (case["orient"]["axis"], case["orient"]["cone"])
+    orient_l = case["orient"]["kind"] + ("-flip" if case["orient"].get("flip") else "") \
+        if case["orient"]["kind"] in ("generic", "asis") else \
+        "align%s/cone%g%s" % (case["orient"]["axis"], case["orient"]["cone"],
+                              "/pair%d-%d" % tuple(case["orient"]["pair"]) if case["orient"].get("pair") else "")
     sp2_l = "sp2-%g" % case["sp2"] if case.get("sp2") else "diag"
 
     # ---- padding rows: exactly zero in every mode -----------------------------------------
@@ -684,6 +906,17 @@ def run_case(case):
         for mode in modes:
             nc = outs[mode]["notconverged"]
             ncflags[mode] = bool(np.asarray(nc).reshape(-1)[r]) if nc is not None else False
+        for mo in modes:
+            # a non-finite force or energy on a row the package itself flags as converged is a violation of its own
+            # (never the frame-rotation finding: that one returns finite, wrong numbers) -> mech None
+            Fr = outs[mo]["force"][r, :n] if np.ndim(outs[mo]["force"]) == 3 else np.full((n, 3), np.nan)
+            Er = np.asarray(outs[mo]["Etot"]).reshape(-1)[r]
+            mon["finite_checks"] = mon.get("finite_checks", 0) + 1
+            if not ncflags[mo] and not (np.all(np.isfinite(Fr)) and np.isfinite(Er)):
+                viol.append({"clause": "force-not-finite-with-clean-flag/" + mo, "mech": None,
+                             "detail": {"row": r, "species": Z, "coords": X.tolist(), "charge": q, "mult": m,
+                                        "n_nonfinite_force_components": int((~np.isfinite(Fr)).sum()),
+                                        "Etot": float(Er), "notconverged_flag": False}})
         live = [mo for mo in modes if not ncflags[mo] and np.all(np.isfinite(outs[mo]["force"][r, :n]))]
         if len(live) < len(modes):
             mon["rows_not_converged"] += 1
@@ -709,7 +942,7 @@ def run_case(case):
             ce = outs[live[0]].get("cis_energies")
             a = exc["active"] - 1
             sep = min([abs(ce[r][k] - ce[r][a]) for k in (a - 1, a + 1) if 0 <= k < ce.shape[1]] + [9.0])
-            if sep < 0.2:
+            if not (sep >= 0.2):
                 obs["excited_ineligible"] = "active root %.3f eV from a neighbour" % sep
                 continue
         # ---- difference quotients of the returned energy -----------------------------------
@@ -756,8 +989,11 @@ def run_case(case):
                         mon["excited_dirs_compared"] += 1
                     if case.get("sp2"):
                         mon["sp2_dirs_compared"] += 1
-                    if case["orient"]["kind"] == "align":
+                    if case["orient"]["kind"] in ("align", "asis"):
                         mon["axis_aligned_dirs_compared"] += 1
+                    if case["orient"]["kind"] == "asis" or (case["orient"]["kind"] == "align" and case["orient"]["cone"] == 0.0
+                                                           and case["orient"]["axis"] in ("+x", "-x")):
+                        mon["exact_x_axis_dirs_compared"] = mon.get("exact_x_axis_dirs_compared", 0) + 1
                     if case.get("dispersion"):
                         mon["dispersion_dirs_compared"] = mon.get("dispersion_dirs_compared", 0) + 1
                     name = ("fd_sp2/" if case.get("sp2") else ("fd_excited/" if exc else "fd/")) + mo
@@ -774,7 +1010,7 @@ def run_case(case):
                                             "dir": dirs[k].tolist()}})
         cells.append("/".join([case["method"], state, spin, conv_l, sp2_l, case["layout"]]))
         if case.get("dispersion"):
-            cells.append("dispersion/%s/%s" % (case["method"], "+".join("%s-%s@%s" % tuple(d) if d[1] else d[0] for d in case["dimers"])))
+            cells.append("dispersion/%s/%s" % (case["method"], "+".join("%s-%s@%s" % tuple(d[:3]) if d[1] else d[0] for d in case["dimers"])))
         for mo in live:
             cells.append("mode/%s/%s/%s/%s" % (case["method"], mo, state if exc else spin, orient_l))
         if case["kind"] == "pair":
@@ -828,7 +1064,8 @@ def summarize(cases, results, report):
         if not r or r.get("violations"):
             continue
         o = c.get("orient", {})
-        incone = o.get("kind") == "align" and o.get("axis") in ("+x", "-x") and o.get("cone", 1.0) < 4.6e-4
+        incone = o.get("kind") == "asis" or \
+            (o.get("kind") == "align" and o.get("axis") in ("+x", "-x") and o.get("cone", 1.0) < 4.6e-4)
         tgt = clean_cone if incone else clean
         for k, v in (r.get("margins") or {}).items():
             if v is not None and not (v <= tgt.get(k, {"worst": -1.0})["worst"]):
